@@ -647,6 +647,10 @@ type c18Scan struct {
 	slice     ssa.Value // the slice of settings scanned
 	loopE     *loopInfo
 	converter string
+	skips     []*Path // completing scan steps that never test the selector match
+	k         *keyer
+	eID       string
+	pInst     *ssa.Parameter
 }
 
 func c18NameOfRoot(k *keyer, v ssa.Value, ident string, typ string) bool {
@@ -886,6 +890,7 @@ func c18ConflictSearch(r *Run, cf *ssa.Function) *c18Scan {
 
 	// scan steps: paths through one iteration of the scan loop
 	nSteps := 0
+	var skips []*Path
 	for _, s := range loopE.Header.Succs {
 		if !loopE.Blocks[s] {
 			continue
@@ -908,6 +913,9 @@ func c18ConflictSearch(r *Run, cf *ssa.Function) *c18Scan {
 				}
 			}
 			if !m {
+				if !p.Has(false, isMatch) {
+					skips = append(skips, p)
+				}
 				continue
 			}
 			nSteps++
@@ -936,7 +944,7 @@ func c18ConflictSearch(r *Run, cf *ssa.Function) *c18Scan {
 		r.Undecided("C18.R1", "scanned slice", pos, fnName, "the scanned setting is not an element of a slice: "+mi.eRoot.String())
 		return nil
 	}
-	return &c18Scan{slice: sl.X, loopE: loopE, converter: mi.converter}
+	return &c18Scan{slice: sl.X, loopE: loopE, converter: mi.converter, skips: skips, k: k, eID: eID, pInst: pInst}
 }
 
 func c18Flags(m, ne, fd bool) string {
@@ -959,11 +967,82 @@ type c18World struct{ t, n int } // t: -1 earlier, 0 equal, +1 later (element i 
 
 func c18Order(r *Run, cf *ssa.Function, scan *c18Scan) {
 	less, sortCall := c18FindSort(r, cf, scan.slice, scan.loopE, 0)
-	if less == nil {
-		return
+	dir := 0
+	if less != nil {
+		_ = sortCall
+		dir = c18LessTable(r, less)
 	}
-	_ = sortCall
-	c18LessTable(r, less)
+	c18Skips(r, cf, scan, dir)
+}
+
+// c18Skips judges the scan steps that go on to the next setting without testing whether the
+// scanned setting matches the node. Such a skip loses a record (and so a conflict) unless the
+// skipped setting is strictly after the reconciled one in the conflict order: the only skip
+// accepted is one taken under a strict creation-time comparison in the comparator's direction
+// (dir: +1 later-created first, -1 earlier-created first, 0 unknown / order not by time).
+func c18Skips(r *Run, cf *ssa.Function, scan *c18Scan, dir int) {
+	fnName := shortFunc(cf)
+	k := scan.k
+	side := func(v ssa.Value) int { // 0 scanned setting, 1 reconciled setting, -1 other
+		root, p := accessPath(v)
+		n := len(p)
+		if !(n >= 1 && p[n-1] == "CreationTimestamp" || n >= 2 && p[n-2] == "CreationTimestamp" && p[n-1] == "Time") {
+			return -1
+		}
+		if root == ssa.Value(scan.pInst) {
+			return 1
+		}
+		if baseTypeName(root.Type()) == c18SettingKind && c18Ident(k, root) == scan.eID {
+			return 0
+		}
+		return -1
+	}
+	// rel: +1 the scanned setting is strictly later-created than the reconciled one, -1 strictly earlier
+	strictRel := func(p *Path) int {
+		rel := 0
+		for _, f := range p.Facts {
+			c, ok := f.V.(*ssa.Call)
+			if !ok || !f.Pol || len(c.Call.Args) != 2 {
+				continue
+			}
+			a, b := side(c.Call.Args[0]), side(c.Call.Args[1])
+			if a < 0 || b < 0 || a == b {
+				continue
+			}
+			before := 0 // +1: arg0 before arg1
+			switch calleeName(&c.Call) {
+			case "(" + pkgMetaV1 + ".Time).Before", "(time.Time).Before":
+				before = 1
+			case "(time.Time).After":
+				before = -1
+			default:
+				continue
+			}
+			// a before b (before=1): if a is the scanned setting it is earlier
+			if a == 0 {
+				rel = -before
+			} else {
+				rel = before
+			}
+		}
+		return rel
+	}
+	seen := map[string]bool{}
+	for _, p := range scan.skips {
+		rel := strictRel(p)
+		ok := dir != 0 && rel != 0 && rel == -dir // later-first order: an earlier-created setting comes after the reconciled one
+		construct := "scan step without match test [" + map[int]string{0: "no strict creation-time fact", 1: "scanned created after reconciled", -1: "scanned created before reconciled"}[rel] + "]"
+		if seen[construct] {
+			continue
+		}
+		seen[construct] = true
+		detail := "path facts: " + shortFacts(p)
+		if !ok {
+			detail = "the step goes on to the next setting without testing the selector and without a strict creation-time comparison placing the skipped setting after the reconciled one in the conflict order (with equal creation times two settings would skip each other and both stay valid); " + detail
+		}
+		r.Check("C18.R4", construct, r.Prog.Pos(instrPos(p.Blocks[0].Instrs[0])), fnName,
+			"every scan step tests whether the scanned setting matches the node (then records it or reports the conflict); a setting may be skipped untested only if it is strictly after the reconciled one in the conflict order", ok, detail)
+	}
 }
 
 // c18FindSort finds the sort call applied to slice value s in fn before the use at loop (or before
@@ -1089,7 +1168,7 @@ func c18FindSortBeforeReturn(r *Run, fn *ssa.Function, _ *ssa.Return) (*ssa.Func
 }
 
 // c18LessTable evaluates the comparator over the six worlds and checks its form.
-func c18LessTable(r *Run, less *ssa.Function) {
+func c18LessTable(r *Run, less *ssa.Function) (dir int) {
 	pos := r.Prog.Pos(less.Pos())
 	fnName := shortFunc(less)
 	var ints []*ssa.Parameter
@@ -1258,6 +1337,13 @@ func c18LessTable(r *Run, less *ssa.Function) {
 		res[c18World{0, -1}] != res[c18World{0, 1}]
 	timeFirst := res[c18World{-1, -1}] == res[c18World{-1, 1}] && res[c18World{1, -1}] == res[c18World{1, 1}] && res[c18World{-1, -1}] != res[c18World{1, -1}]
 	tie := res[c18World{0, -1}] != res[c18World{0, 1}]
+	if timeFirst && tie && !nameOnly {
+		if res[c18World{1, -1}] {
+			dir = 1 // element created later sorts first
+		} else {
+			dir = -1
+		}
+	}
 	r.Check("C18.R1", "conflict order: different creation times", pos, fnName,
 		"when creation times differ the order is decided by them alone and Less(i,j) ≠ Less(j,i) (or the order is by name alone)", timeFirst || nameOnly, table)
 	r.Check("C18.R1", "conflict order: equal creation times", pos, fnName,
@@ -1270,6 +1356,7 @@ func c18LessTable(r *Run, less *ssa.Function) {
 		o := r.Check("C18.R1", "conflict order: form", pos, fnName, "lexicographic product of strict total orders is a strict total order", true, form)
 		o.Trivial = true
 	}
+	return dir
 }
 
 // ---------------------------------------------------------------------------------------------
@@ -1350,6 +1437,10 @@ func c18Consumer(r *Run, converter string) {
 		}
 		var leaves []leaf
 		seen := map[ssa.Value]bool{}
+		// A phi at the header of a loop that encloses the attach site merges, on its back edges, the
+		// value of the previous iteration (another node): such a value was not selected for this node.
+		headers := enclosingLoopHeaders(s.fn, s.at.Block())
+		carried := ""
 		var walk func(v ssa.Value, facts factSet)
 		walk = func(v ssa.Value, facts factSet) {
 			if phi, ok := v.(*ssa.Phi); ok {
@@ -1358,13 +1449,22 @@ func c18Consumer(r *Run, converter string) {
 				}
 				seen[v] = true
 				for i, e := range phi.Edges {
-					walk(e, ff.FactsAtEdge(phi.Block().Preds[i], phi.Block()))
+					pred := phi.Block().Preds[i]
+					if headers[phi.Block()] && phi.Block().Dominates(pred) {
+						if e != ssa.Value(phi) && !isNilConst(unwrap(e)) {
+							carried = "variable " + phi.Comment + " is merged at the header of a loop around the attach site with its value from the previous iteration"
+						}
+						continue
+					}
+					walk(e, ff.FactsAtEdge(pred, phi.Block()))
 				}
 				return
 			}
 			leaves = append(leaves, leaf{v, facts})
 		}
 		walk(s.val, ff.At(s.at.Block()))
+		r.Check("C18.R5", "setting selected in this iteration", r.Prog.Pos(instrPos(s.at)), shortFunc(s.fn),
+			"the setting attached to a node item is selected for this node in this iteration of the enclosing loops (not carried over from the previous node)", carried == "", carried)
 		nonNil := 0
 		for _, l := range leaves {
 			if isNilConst(unwrap(l.v)) {
